@@ -111,6 +111,10 @@ func (w *cworld) register(r *rand.Rand, n int) {
 	w.log("add%d", n)
 	w.mu.Unlock()
 	w.r.AddPlayers(ps)
+	// the message buffer is the caller's again
+	for i := range ps {
+		ps[i] = "not-a-player"
+	}
 }
 
 // one turn of a table owner: pick a free table, eliminate, sync, carry out the instructions
@@ -200,7 +204,11 @@ func (w *cworld) turn(r *rand.Rand, id string, out int) bool {
 	}
 	w.mu.Unlock()
 	if len(released) > 0 || broken {
-		w.r.ReleasePlayers(id, released)
+		buf := append([]string{}, released...)
+		w.r.ReleasePlayers(id, buf)
+		for i := range buf {
+			buf[i] = "not-a-player"
+		}
 	}
 	w.mu.Lock()
 	w.busy[id] = false
